@@ -60,7 +60,13 @@ class C09(common.Spec):
 
             class TaggedEdzed(Tagged, edzed.EdzedError):
                 pass
-            handler_exc = {'circuit': TaggedCircuit, 'invalid': TaggedInvalid, 'edzed': TaggedEdzed}.get(
+            class TaggedType(Tagged, TypeError):
+                pass            # a TypeError raised INSIDE the handler is not a parameter error
+
+            class TaggedKey(Tagged, KeyError):
+                pass
+            handler_exc = {'circuit': TaggedCircuit, 'invalid': TaggedInvalid, 'edzed': TaggedEdzed,
+                           'type': TaggedType, 'key': TaggedKey}.get(
                 case.get('handler_exc'), Tagged)
 
             class HP(edzed.SBlock):
@@ -412,7 +418,7 @@ def gen_case(rng):
         sups.append([rng.choice(grid), what, tag])
         tag += 1
     return dict(events=events, sups=sups, tail_us=rng.choice([0, 150_000]),
-                handler_exc=rng.choice(['plain', 'plain', 'circuit', 'invalid', 'edzed']),
+                handler_exc=rng.choice(['plain', 'plain', 'circuit', 'invalid', 'edzed', 'type', 'key']),
                 async_init_error=rng.random() < 0.15, restore_error=rng.choice([False] * 17 + [True, 'runtime', 'os', 'custom', 'circuit', 'key']),
                 stop_error=rng.choice([False] * 11 + [True, 'async']),
                 sync_init_error=rng.choice([None] * 12 + ['direct', 'via_restore', 'via_async', 'abort_in_init']))
